@@ -183,6 +183,33 @@ def lmTryLockWT (blockers : Option (List (Bool × Bool))) (oi : Bool × Bool) : 
       | none => gRemoveTx oi) ++
     [rel txLocks write, rel locks write]
 
+/-- the regression class "shorten the section": the conflict branch of `try_lock_with_wait_tracking`
+    with the two guards dropped as soon as the conflict set is complete and the `add_wait` calls
+    AFTER them.  Not a model of the current tree.  It takes the same locks in an order that is
+    still rank-ordered (`OrderProps.drop_guards_first_is_still_rank_ordered_witness`) — no deadlock
+    comes of it; what it loses is the critical section (`graphUnderTable`, and the data-level model
+    `SectionModel.lean`). -/
+def lmTryLockWTDropGuardsFirst (blockers : List (Bool × Bool)) : List Act :=
+  [acq locks write, acq txLocks write, rel txLocks write, rel locks write] ++
+    blockers.flatMap (fun fp => gAddWait false fp.1 fp.2)
+
+/-! ### critical sections: what runs under the lock-table guards -/
+
+/-- the four `RwLock`s of `WaitForGraph` -/
+def isGraphRes : Res → Bool
+  | .edges | .reverse | .waitStarted | .priorities => true
+  | _ => false
+
+/-- both lock-table write guards are held -/
+def holdsTable (H : Held) : Bool := H.contains (locks, write) && H.contains (txLocks, write)
+
+/-- every acquisition of a wait-for-graph lock in `p` (started holding `H`) happens while both
+    lock-table write guards are held: the graph is touched only INSIDE the lock-table section -/
+def graphUnderTable : Held → List Act → Bool
+  | _, [] => true
+  | H, .acq r m :: rest => (!isGraphRes r || holdsTable H) && graphUnderTable ((r, m) :: H) rest
+  | H, .rel r m :: rest => graphUnderTable (H.erase (r, m)) rest
+
 /-- `LockManager::to_serializable` (two temporaries alive until the end of the struct expression) -/
 def lmToSerializable : List Act := [acq locks read, acq txLocks read, rel txLocks read, rel locks read]
 
